@@ -130,7 +130,7 @@ func (fc *FnCtx) doCall(fr *Frame, st *State, instr ssa.Instruction, c *ssa.Call
 	}
 	fc.havocCallees[dname] = true
 	// frame: havoc what the callee may write (syntactic write set)
-	fc.havocWrites(st, fc.eng.writeSet(callee))
+	fc.havocSet(st, fc.eng.writeSet(callee))
 	return havocRes("call_" + callee.Name())
 }
 
@@ -293,7 +293,7 @@ func (fc *FnCtx) applyContract(fr *Frame, st *State, instr ssa.Instruction, spec
 				ws["fresh:"+h] = true
 			}
 		}
-		if fc.eng.writeSet(callee)["$now"] {
+		if fc.eng.writeSet(callee)["$now"] > 0 {
 			ws["$now"] = true
 		}
 	}
@@ -327,6 +327,19 @@ func (fc *FnCtx) applyContract(fr *Frame, st *State, instr ssa.Instruction, spec
 	return res
 }
 
+// havocSet forgets everything in a write set, keeping old references for fresh-only writes.
+func (fc *FnCtx) havocSet(st *State, w writeSetT) {
+	ws := map[string]bool{}
+	for h, k := range w {
+		if k == wFresh && !strings.HasPrefix(h, "$") && !strings.HasPrefix(h, "ghost:") {
+			ws["fresh:"+h] = true
+		} else {
+			ws[h] = true
+		}
+	}
+	fc.havocForContract(st, ws)
+}
+
 func (fc *FnCtx) havocForContract(st *State, ws map[string]bool) {
 	full := map[string]bool{}
 	var fresh []string
@@ -347,18 +360,11 @@ func (fc *FnCtx) havocForContract(st *State, ws map[string]bool) {
 			st.cells[keyAlloc] = n
 		}
 	}
-	for _, h := range fresh {
-		cur, ok := st.heaps[h]
-		if !ok {
-			continue // untouched so far: callee can only have written fresh refs, which nobody here can name yet
-		}
-		nh := fc.fresh("hf_"+h, cur.Sort)
-		is := idxSortOfArray(cur.Sort)
-		if is == SInt {
-			fc.assume(st, T(SBool, fmt.Sprintf("(forall ((r Int)) (! (=> (<= r %s) (= (select %s r) (select %s r))) :pattern ((select %s r))))", oldTop.S, nh.S, cur.S, nh.S)))
-		}
-		st.heaps[h] = nh
-	}
+	// Heaps written only at references the callee allocated itself are left untouched: the symbolic heap
+	// is unconstrained above the allocation pointer (every fact mentions allocated references only, which
+	// typeFact guarantees), so the current term already stands for "any contents the callee may have put
+	// there". Bumping the allocation pointer is all that is needed; no quantified frame fact.
+	_ = fresh
 }
 
 // ---------------------------------------------------------------------------
